@@ -381,4 +381,63 @@ def panelDot (pa pb : List α) (mr nr depth i jt x y : Nat) : α :=
 
 end PanelKernel
 
+/-! ## Prepacked matrices (`prepack.rs`)
+
+Units are elements (bytes / `size_of::<f32>()`).  `prepack_a` (`t = MR`, `nm = a.rows()`) and
+`prepack_b` (`t = NR`, `nm = b.cols()`) are symmetric: one `pack_*_block` call per depth block
+`range_chunks(0..K, kc)`, written at `depth_block_idx * layout.size()`; the last depth block may be
+shorter and then has the smaller `tail_panel_stride`. -/
+
+/-- `PackedMatrixBase` (the fields `block` uses) + total buffer length. -/
+structure PackedBase where
+  panelSize : Nat
+  depthBlock : Nat
+  depthBlockStride : Nat
+  panelStride : Nat
+  tailPanelStride : Nat
+  nmSize : Nat
+  depthSize : Nat
+  totalLen : Nat
+deriving Repr, DecidableEq
+
+/-- `prepack_a` / `prepack_b` metadata for an `nm × K` operand, panel size `t`, depth block `kc`
+(`packed_*_layout`: `size = nm.next_multiple_of(t) * depth`, `panel_stride = t * depth`). -/
+def prepackBase (t nm K kc : Nat) : PackedBase :=
+  { panelSize := t, depthBlock := kc,
+    depthBlockStride := nextMultipleOf nm t * kc,
+    panelStride := t * kc,
+    tailPanelStride := if K % kc = 0 then t * kc else t * (K % kc),
+    nmSize := nm, depthSize := K,
+    totalLen := (K / kc) * (nextMultipleOf nm t * kc) +
+      (if K % kc = 0 then 0 else nextMultipleOf nm t * (K % kc)) }
+
+/-- `let panel_stride = if depth_block_idx == n_blocks - 1 { tail_panel_stride } else { panel_stride }`
+with `n_blocks = depth_size.div_ceil(depth_block)`. -/
+def PackedBase.panelStrideAt (b : PackedBase) (idx : Nat) : Nat :=
+  if idx = divCeil b.depthSize b.depthBlock - 1 then b.tailPanelStride else b.panelStride
+
+/-- `PackedMatrixBase::block(nm_range, depth_block_idx)`: `(start, end, panel_stride)` of the
+returned slice `data[start..end]` (the `assert_eq!(nm_range.start % panel_size, 0)` is a
+precondition). -/
+def PackedBase.block (b : PackedBase) (s e idx : Nat) : Nat × Nat × Nat :=
+  let ps := b.panelStrideAt idx
+  let off := idx * b.depthBlockStride
+  (off + (s / b.panelSize) * ps, off + divCeil e b.panelSize * ps, ps)
+
+/-- The buffer `prepack_a` fills: the packed block of all rows for each depth block, in order. -/
+def prepackABuf {α : Type} [Add α] [Mul α] [Zero α] (A : Nat → Nat → α) (mr rows K kc : Nat) : List α :=
+  (depthBlocks K kc).flatMap fun d => packAVals A mr 0 rows d.1 d.2
+
+/-- The buffer `prepack_b` fills. -/
+def prepackBBuf {α : Type} [Add α] [Mul α] [Zero α] (B : Nat → Nat → α) (nr cols K kc : Nat) : List α :=
+  (depthBlocks K kc).flatMap fun d => packBVals B nr d.1 d.2 0 cols
+
+/-- Seeded variant C16_c of `block` (full `panel_stride` for the start offset even in the tail
+depth block), kept to show the theorems tell it apart. -/
+def PackedBase.blockSeedC (b : PackedBase) (s e idx : Nat) : Nat × Nat × Nat :=
+  let ps := b.panelStrideAt idx
+  let off := idx * b.depthBlockStride
+  let start := off + (s / b.panelSize) * b.panelStride
+  (start, start + (divCeil e b.panelSize - s / b.panelSize) * ps, ps)
+
 end RtenVerif.Gemm
